@@ -207,8 +207,10 @@ fn normalise(v: Vec<Obs>) -> Vec<Obs> {
 }
 
 pub fn handle(w: &[&str]) -> String {
+    // ops `decS` / `loopS` / `callsS` run the same code as `dec` / `loop` / `calls`; only the Lean side judges them
+    // under the strict SETTINGS reading R-02s
     match w {
-        ["frame", "dec", h] => {
+        ["frame", "dec" | "decS", h] => {
             let Some(bs) = parse_hex(h) else { return "bad-op".into() };
             guarded(|| {
                 let mut buf = &bs[..];
@@ -227,7 +229,7 @@ pub fn handle(w: &[&str]) -> String {
                 }
             })
         }
-        ["fs", "calls", sc, cs] => {
+        ["fs", "calls" | "callsS", sc, cs] => {
             let Some(script) = parse_script(sc) else { return "bad-op".into() };
             if !cs.chars().all(|c| c == 'n' || c == 'd') {
                 return "bad-op".into();
@@ -248,7 +250,7 @@ pub fn handle(w: &[&str]) -> String {
             }
             out.iter().map(render_obs).collect::<Vec<_>>().join(" ")
         }
-        ["fs", "loop", sc] => {
+        ["fs", "loop" | "loopS", sc] => {
             let Some(script) = parse_script(sc) else { return "bad-op".into() };
             let total: usize = script.iter().map(|e| if let Ev::Chunk(b) = e { b.len() } else { 0 }).sum();
             let mut fuel = 4 * total + 4 * script.len() + 8;
